@@ -686,11 +686,14 @@ int KSI_FsClient_extractPath(const char *uri, char **path) {
 		goto cleanup;
 	}
 
-	pathStart = strstr(uri, scheme) + strlen(scheme);
-	if (pathStart == NULL) {
+	/* The scheme is matched case-insensitively, as in the scheme dispatch. */
+	if (strlen(uri) < strlen(scheme) || uri[4] != ':' || uri[5] != '/' || uri[6] != '/' ||
+			(uri[0] != 'f' && uri[0] != 'F') || (uri[1] != 'i' && uri[1] != 'I') ||
+			(uri[2] != 'l' && uri[2] != 'L') || (uri[3] != 'e' && uri[3] != 'E')) {
 		res = KSI_INVALID_ARGUMENT;
 		goto cleanup;
 	}
+	pathStart = (char *)uri + strlen(scheme);
 
 	tmpPath = KSI_malloc(strlen(pathStart) + 1);
 	if (tmpPath == NULL) {
